@@ -436,8 +436,8 @@ func (s *Stack) RtNext(p *Proc, who string) CallResult {
 		s.mu.Unlock()
 	}
 	s.Rec.Emit(a, "NextRet", "cid", cid, "who", a, "gen", gen(p), "status", r.Status, "errType", r.ErrType, "net", r.NetErr,
-		"kind", map[bool]string{true: "INVOKE", false: ""}[r.Status == 200], "reqid", r.RequestID,
-		"payload", s.classifyIf(r.Status == 200, r.Body), "size", len(r.Body),
+		"kind", map[bool]string{true: "INVOKE", false: ""}[r.Status == 200 && r.RequestID != ""], "reqid", r.RequestID,
+		"payload", s.classifyIf(r.Status == 200 && r.RequestID != "", r.Body), "size", len(r.Body),
 		"deadlineMs", r.Header.Get("Lambda-Runtime-Deadline-Ms"), "arn", r.Header.Get("Lambda-Runtime-Invoked-Function-Arn"),
 		"ctx", r.Header.Get("Lambda-Runtime-Client-Context"), "trace", r.Header.Get("Lambda-Runtime-Trace-Id"),
 		"nowMs", time.Now().UnixMilli())
@@ -571,6 +571,37 @@ func (s *Stack) RtRestoreError(p *Proc, who, errType string) CallResult {
 	cid := s.Rec.Emit(a, "RestoreErrCall", "who", a, "gen", gen(p), "errType", errType)
 	r := s.do(p, "POST", "/2018-06-01/runtime/restore/error", h, []byte("{}"))
 	s.Rec.Emit(a, "RestoreErrRet", "cid", cid, "who", a, "gen", gen(p), "status", r.Status, "errType", r.ErrType, "net", r.NetErr)
+	return r
+}
+
+// Creds asks the credentials endpoint (snapshot mode) with the per-instance token of the runtime's
+// environment ("ok"), a wrong token or none.
+func (s *Stack) Creds(p *Proc, idClass string) CallResult {
+	a := actorOf(p, "rt")
+	if idClass == "" {
+		idClass = "ok"
+	}
+	h := map[string]string{}
+	switch idClass {
+	case "ok":
+		if p != nil {
+			h["Authorization"] = p.Env["AWS_CONTAINER_AUTHORIZATION_TOKEN"]
+		}
+	case "wrong":
+		h["Authorization"] = "not-the-token"
+	}
+	cid := s.Rec.Emit(a, "CredsCall", "who", a, "gen", gen(p), "idc", idClass)
+	r := s.do(p, "GET", "/2021-04-23/credentials", h, nil)
+	var m map[string]interface{}
+	_ = json.Unmarshal(r.Body, &m)
+	key, _ := m["AccessKeyId"].(string)
+	lbl := key
+	if key == "AKIDEXAMPLE" {
+		lbl = "init"
+	} else if strings.HasPrefix(key, "RK") {
+		lbl = strings.TrimPrefix(key, "RK")
+	}
+	s.Rec.Emit(a, "CredsRet", "cid", cid, "who", a, "gen", gen(p), "status", r.Status, "net", r.NetErr, "creds", lbl)
 	return r
 }
 
